@@ -30,7 +30,14 @@ TREES = {"quick": 48, "thorough": 1600}
 VALUES = {"quick": 10, "thorough": 30}
 
 
+
 def shards(tier, seed):
+    from vf import engine
+
+    return engine.with_interpreter_options(_plain_shards(tier, seed))
+
+
+def _plain_shards(tier, seed):
     return campaign.tree_shards(TREES[tier], 3 if tier == "quick" else 20)
 
 
